@@ -9,13 +9,15 @@
      - the Lindblad generator of the emitted terms gives  t1 * d/dt rho_11 = - rho_11,  t2 * d/dt rho_01 = - rho_01
        on a two-level system, on the qubit subspace of a three-level system, and for <n>, <a> of any three-level state;
      - the dissipator of ANY collapse operator (dimension 2, 3) is traceless and Hermiticity preserving;
-       a collapse operator on one subsystem does not move the reduced state of the other (2x2, 2x3 registers).
+       a collapse operator on one subsystem does not move the reduced state of the other and moves its own by the
+       local dissipator (bipartite registers 2x2, 2x3, 3x2, 3x3).
    NOT modelled (TRUSTED / external): that x' = -x/tau has the solution exp(-t/tau); qutip.mesolve; positivity
    (complete positivity of the generated semigroup); "to solver tolerance"; registers of more than two subsystems
    in the independence statement; ControlAmpNoise/RandomNoise/ZZCrossTalk (checked numerically by the harness only). *)
 From Coq Require Import QArith List ZArith.
-From QV Require Import Model.Relax Model.Lindblad Gen.Noise Proofs.Relax Proofs.Lindblad Proofs.LindbladBip
-                       Proofs.RelaxLaw Proofs.LindbladInst.
+From QV Require Import Model.Relax Model.Lindblad Gen.Noise Proofs.Relax Proofs.Lindblad Proofs.RelaxLaw Proofs.LindbladInst
+                       Proofs.LindbladBip22 Proofs.LindbladBip23 Proofs.LindbladBip32
+                       Proofs.LindbladBip33a Proofs.LindbladBip33b Proofs.LindbladBip33c Proofs.LindbladBip33d.
 Import ListNotations.
 Local Open Scope Q_scope.
 
@@ -152,7 +154,9 @@ Theorem commutator_hermitian2 : forall (R : cring) iu h00 h01 h10 h11 r00 r01 r1
 Proof. exact comm_herm2. Qed.
 Print Assumptions commutator_hermitian2.
 
-(* ---- independence across subsystems (bipartite registers 2x2 and 2x3, arbitrary tables f, c) ------------------- *)
+(* ---- independence across subsystems: bipartite registers A (x) B of dimensions 2x2, 2x3, 3x2, 3x3, ARBITRARY tables
+        rho = mk n f and C = mk d c.  other: a collapse operator on one subsystem leaves the reduced state of the other
+        untouched; own: it moves the reduced state of its subsystem by its own local dissipator ------------------------ *)
 Theorem independent_other_subsystem_22 : forall (R : cring) f c,
   ptraceB R 2 2 (lind R 4 (kron R 2 2 (ident R 2) (mk R 2 c)) (mk R 4 f)) = mzero R 2 /\
   ptraceA R 2 2 (lind R 4 (kron R 2 2 (mk R 2 c) (ident R 2)) (mk R 4 f)) = mzero R 2.
@@ -173,6 +177,26 @@ Theorem independent_own_subsystem_23 : forall (R : cring) f c,
   ptraceA R 2 3 (lind R 6 (kron R 2 3 (ident R 2) (mk R 3 c)) (mk R 6 f)) = lind R 3 (mk R 3 c) (ptraceA R 2 3 (mk R 6 f)).
 Proof. exact (fun R f c => Logic.conj (own_A_23 R f c) (own_B_23 R f c)). Qed.
 Print Assumptions independent_own_subsystem_23.
+Theorem independent_other_subsystem_32 : forall (R : cring) f c,
+  ptraceB R 3 2 (lind R 6 (kron R 3 2 (ident R 3) (mk R 2 c)) (mk R 6 f)) = mzero R 3 /\
+  ptraceA R 3 2 (lind R 6 (kron R 3 2 (mk R 3 c) (ident R 2)) (mk R 6 f)) = mzero R 2.
+Proof. exact (fun R f c => Logic.conj (other_B_32 R f c) (other_A_32 R f c)). Qed.
+Print Assumptions independent_other_subsystem_32.
+Theorem independent_own_subsystem_32 : forall (R : cring) f c,
+  ptraceB R 3 2 (lind R 6 (kron R 3 2 (mk R 3 c) (ident R 2)) (mk R 6 f)) = lind R 3 (mk R 3 c) (ptraceB R 3 2 (mk R 6 f)) /\
+  ptraceA R 3 2 (lind R 6 (kron R 3 2 (ident R 3) (mk R 2 c)) (mk R 6 f)) = lind R 2 (mk R 2 c) (ptraceA R 3 2 (mk R 6 f)).
+Proof. exact (fun R f c => Logic.conj (own_A_32 R f c) (own_B_32 R f c)). Qed.
+Print Assumptions independent_own_subsystem_32.
+Theorem independent_other_subsystem_33 : forall (R : cring) f c,
+  ptraceB R 3 3 (lind R 9 (kron R 3 3 (ident R 3) (mk R 3 c)) (mk R 9 f)) = mzero R 3 /\
+  ptraceA R 3 3 (lind R 9 (kron R 3 3 (mk R 3 c) (ident R 3)) (mk R 9 f)) = mzero R 3.
+Proof. exact (fun R f c => Logic.conj (other_B_33 R f c) (other_A_33 R f c)). Qed.
+Print Assumptions independent_other_subsystem_33.
+Theorem independent_own_subsystem_33 : forall (R : cring) f c,
+  ptraceB R 3 3 (lind R 9 (kron R 3 3 (mk R 3 c) (ident R 3)) (mk R 9 f)) = lind R 3 (mk R 3 c) (ptraceB R 3 3 (mk R 9 f)) /\
+  ptraceA R 3 3 (lind R 9 (kron R 3 3 (ident R 3) (mk R 3 c)) (mk R 9 f)) = lind R 3 (mk R 3 c) (ptraceA R 3 3 (mk R 9 f)).
+Proof. exact (fun R f c => Logic.conj (own_A_33 R f c) (own_B_33 R f c)). Qed.
+Print Assumptions independent_own_subsystem_33.
 
 (* ---- non-vacuity ------------------------------------------------------------------------------------------------ *)
 (* the hypotheses valid/compat/admissible are inhabited, at the boundary t2 = 2 t1 and with mixed None entries *)
